@@ -159,7 +159,8 @@ impl EnvX {
                 Some(format!("{} {}[{}]", self.spell(*elem)?, name, n))
             }
             Some(OtherDef::Resource(kind, elem)) => {
-                if t.mods.0 & !1 != 0 {
+                // only spelled for extern globals (which pass the type without its implicit const)
+                if t.mods.0 != 0 {
                     return None;
                 }
                 Some(format!("{}<{}> {}", kind, self.spell(*elem)?, name))
@@ -1145,7 +1146,7 @@ fn cst(t: Ty) -> Ty {
 }
 
 /// `o.0 = S0 { int q; float3 v; float a[2]; }` (the array is o.2), `o.1 = S1 { S0 s; float2x2 m; uint k; }`,
-/// `o.2 = float[2]`, `o.3 = float[3]`, `o.4 = const float[3]`, `o.5 = S0[2]`, `o.6 = float3[2]`
+/// `o.2 = float[2]`, `o.3 = float[3]`, `o.4 = const float[3]`, `o.5 = S0[2]`, `o.6 = float3[2]`, `o.7 .. o.12` = resources
 pub fn base_envx(ret: Option<Ty>) -> EnvX {
     let f = plain(Layer::Scalar(S_FLOAT));
     let i = plain(Layer::Scalar(S_INT));
@@ -1158,6 +1159,12 @@ pub fn base_envx(ret: Option<Ty>) -> EnvX {
         OtherDef::Array(cst(f), 3),
         OtherDef::Array(plain(Layer::Other(0)), 2),
         OtherDef::Array(f3, 2),
+        OtherDef::Resource("StructuredBuffer".into(), plain(Layer::Vector(S_FLOAT, 4))), // o.7
+        OtherDef::Resource("RWStructuredBuffer".into(), plain(Layer::Other(0))),         // o.8
+        OtherDef::Resource("Texture2D".into(), plain(Layer::Vector(S_FLOAT, 4))),        // o.9
+        OtherDef::Resource("RWTexture2D".into(), f),                                     // o.10
+        OtherDef::Resource("Texture3D".into(), f),                                       // o.11
+        OtherDef::Resource("RWTexture2DArray".into(), plain(Layer::Vector(S_FLOAT, 2))), // o.12
     ];
     let mut vars = Vec::new();
     for s in GRID_SCALARS {
@@ -1189,13 +1196,24 @@ pub fn base_envx(ret: Option<Ty>) -> EnvX {
     vars.push(plain(Layer::Enum(0))); // 29 E0
     vars.push(plain(Layer::Enum(1))); // 30 E1
     vars.push(cst(plain(Layer::Enum(0)))); // 31 const E0
+    for k in 7..=12u32 {
+        vars.push(cst(plain(Layer::Other(k)))); // 32..37 resources (extern globals)
+    }
+    vars.push(plain(Layer::Vector(S_UINT, 2))); // 38 uint2
+    vars.push(plain(Layer::Vector(S_UINT, 3))); // 39 uint3
     let mut funcs = base_funcs();
     // f6: returns a float3, f7: returns S0 by value (rvalue composites), f8: out float3, f9: inout float
     funcs.push(Func { name: 6, non_default: 0, ret: f3, params: vec![] });
     funcs.push(Func { name: 7, non_default: 0, ret: plain(Layer::Other(0)), params: vec![] });
     funcs.push(Func { name: 8, non_default: 1, ret: i, params: vec![Param { io: Io::Out, ty: f3 }] });
     funcs.push(Func { name: 9, non_default: 1, ret: i, params: vec![Param { io: Io::InOut, ty: f }] });
-    let kinds = vec!['l'; vars.len()];
+    let kinds: Vec<char> = vars
+        .iter()
+        .map(|v| match v.layer {
+            Layer::Other(k) if matches!(others.get(k as usize), Some(OtherDef::Resource(..))) => 'g',
+            _ => 'l',
+        })
+        .collect();
     EnvX { others, base: Envr { vars, funcs, ret }, kinds }
 }
 
